@@ -59,6 +59,9 @@ def forced_entries(rng, n):
             good = prog(an, bn, dn)
             bad = prog(an + 4, bn, dn) if which == "a" else (prog(an, bn + 4, dn) if which == "b" else prog(an, bn, dn + 4))
             out.append("forced 706c6f6e6b || %s || %s" % (good, bad))
+    # copy constraint between two slots of ONE gate (the witness is used nowhere else): x*x = public, proved with 7 * 1
+    out.append("forced 706c6f6e6b || %s || %s" % ("pub 9;w 3;gate 1 0 0 0 0 0 %s $1 $1 #0 #0" % hx(R - 9),
+                                                      "pub 9;w 9;w 1;gate 1 0 0 0 0 0 %s $1 $2 #0 #0" % hx(R - 9)))
     for k in [16, 32, 1 + rng.below(39), 1 + rng.below(39)]:
         out.append("forced 706c6f6e6b || %s || %s" % (slots(lambda j: "$1"), slots(lambda j: "$1" if j < k else "$2")))
     return out
